@@ -473,12 +473,38 @@ HARNESS_BUDGET_S = {'quick': int(os.environ.get('VERIF_QUICK_BUDGET_S', '1200'))
                     'thorough': int(os.environ.get('VERIF_THOROUGH_BUDGET_S', '14400'))}
 
 
+class ImplTimeout(Exception):
+    """one observation of the implementation used more CPU than IMPL_CPU_S: a loop that does not end"""
+
+
+IMPL_CPU_S = float(os.environ.get('VERIF_IMPL_CPU_S', '20'))
+_impl_depth = [0]
+
+
+def _on_vtalrm(signum, frame):
+    raise ImplTimeout()
+
+
 def impl_call(f, *a, **kw):
-    """Run an implementation call, mapping exceptions to the ('err', class-name) shape the driver uses."""
+    """Run an implementation call, mapping exceptions to the ('err', class-name) shape the driver uses.
+    The call is bounded in CPU time (ITIMER_VIRTUAL, independent of the check's wall-clock budget): an
+    implementation that loops on some input yields ['err', 'ImplTimeout'] for that observation instead of
+    hanging the whole correspondence."""
+    import signal
+    outer = _impl_depth[0] == 0
+    _impl_depth[0] += 1
+    if outer:
+        old = signal.signal(signal.SIGVTALRM, _on_vtalrm)
+        signal.setitimer(signal.ITIMER_VIRTUAL, IMPL_CPU_S)
     try:
         return f(*a, **kw)
     except Exception as e:   # noqa: the point is to observe every exception class
         return ['err', type(e).__name__]
+    finally:
+        _impl_depth[0] -= 1
+        if outer:
+            signal.setitimer(signal.ITIMER_VIRTUAL, 0)
+            signal.signal(signal.SIGVTALRM, old)
 
 
 # ---------------------------------------------------------------- main entry
@@ -587,7 +613,7 @@ def main_check(prop, cfg, tier, seed, replay=None):
             shutil.rmtree(alt, ignore_errors=True)
 
 
-EVIDENCE_DIR = VERIF / 'evidence'
+EVIDENCE_DIR = Path(os.environ.get('VERIF_EVIDENCE_DIR') or (VERIF / 'evidence'))
 
 
 def _main_check(prop, cfg, tier, seed, replay=None):
